@@ -38,6 +38,7 @@ def server_scenario_st(tier):
                                'ret': st.sampled_from([True, 0, '', [],
                                                        'no'])}),
         st.just({'d': 'false'}),
+        st.just({'d': 'self_disconnect'}),
         st.fixed_dictionaries({'d': st.just('raise'),
                                'args': st.lists(S.tree_st(
                                    with_bytes=False, max_leaves=2),
@@ -173,26 +174,48 @@ def _run(case, aio, coro, setup, w, socketio, n_transports):
                 return result(args)
         return h
 
-    def on_connect(sid, environ, auth=None):
+    def decide(sid, auth):
         trace.append(('handler', 'connect', [sid, auth]))
         d = case['decisions'][dstate['n'] % len(case['decisions'])]
         dstate['n'] += 1
+        return d
+
+    def finish(d):
         if d['d'] == 'false':
             return False
         if d['d'] == 'raise':
             raise socketio.exceptions.ConnectionRefusedError(*d['args'])
         return d.get('ret')
 
+    def ns_of(sid):
+        for n, rooms in sio.manager.rooms.items():
+            if sid in rooms.get(None, {}):
+                return n
+        return '/'
+
     def on_disconnect(sid, reason):
         trace.append(('handler', 'disconnect', [sid, reason]))
-    if coro:
+    if aio:
+        # the connect handler is always a coroutine on the asyncio server,
+        # so that it can disconnect the client it is being asked about
         async def c_connect(sid, environ, auth=None):
-            return on_connect(sid, environ, auth)
-
+            d = decide(sid, auth)
+            if d['d'] == 'self_disconnect':
+                await sio.disconnect(sid, namespace=ns_of(sid))
+                return None
+            return finish(d)
+    else:
+        def c_connect(sid, environ, auth=None):
+            d = decide(sid, auth)
+            if d['d'] == 'self_disconnect':
+                sio.disconnect(sid, namespace=ns_of(sid))
+                return None
+            return finish(d)
+    if coro:
         async def c_disconnect(sid, reason):
             return on_disconnect(sid, reason)
     else:
-        c_connect, c_disconnect = on_connect, on_disconnect
+        c_disconnect = on_disconnect
     for ns in ('/', '/x'):
         sio.on('connect', c_connect, namespace=ns)
         sio.on('disconnect', c_disconnect, namespace=ns)
